@@ -8,6 +8,7 @@ CONSTANTS
   MaxDeletes = 1
   Coords = {"A", "X"}
   MaxRestores = 1
+  MaxPauseOps = 1
   Shapes = {"plain", "dup"}
   GetDs = {0}
 INVARIANTS Inv_ExactlyOne Inv_NoForeign Inv_AssignedExist Inv_Balanced Inv_SameEpochSame Inv_Converged Inv_Impl
